@@ -51,6 +51,12 @@ CLAIMED = {
    text="Bounded model checking of cache coherence: for every class below Cached with a fixture and every cached method, z3 searches for a history construct / query / <=k public mutators / query in which the second query's cache key equals the first although an attribute in the method's (over-approximated) read set was written. Candidates are replayed on real objects with two distinct argument sets per mutator and the argument patterns defaults / key / typical_weight; only reproduced differences are reported.",
    note="Bounds: k<=1 quick, k<=2 thorough; 17 classes with fixtures. unsat is relative to the effect abstraction (getattr-based access and foreign-object state beyond igraph edge attributes not seen). Spectral measures (ARPACK random start vector) cannot be compared and are reported inconclusive. Values are not checked here, only coherence.",
    ref="DESIGN.md §3 C01"),
+ "C07": dict(
+   engine="K+P",
+   technique="bounded symbolic execution: distance / embedding / adaptive-neighbourhood kernels by the Cython parse-tree interpreter, and the real constructors and setters of RecurrencePlot, CrossRecurrencePlot, JointRecurrencePlot/Network, RecurrenceNetwork by proxy-value execution (forking on sort comparisons and on int(rate*(N-1))), decided by z3 (LRA/NRA); sat models replayed on the real classes",
+   text="Bounded model checking: for every real (NaN-able) series up to the bound and every threshold the recurrence matrix stored by the real classes equals the thresholded metric distances (missing rows/columns cleared), cross and joint (lagged) constructions are the stated compositions with N/M equal to the stored matrix sizes, the recurrence network is R without diagonal, fixed-rate thresholding is monotone in the distance and never exceeds the requested count, local rates give equal row counts under distinct distances, and the adaptive variant gives every state at least the requested number of neighbours without raising for any neighbour order.",
+   note="Bounds: kernels length<=4, dim<=2, tau<=2; classes length<=3 (4 thorough), lag -1..2. Exact reals, dtype erasure; sqrt as algebraic variable. Outside: sampling-based threshold estimation, normalize=True, rounding.",
+   ref="DESIGN.md §3 C07"),
 }
 NA_DEFAULT = "check not built yet in this round (see DESIGN.md §6 for the planned obligation)"
 def main():
